@@ -13,7 +13,11 @@
      OErr ENone   the call has no effect and reports an error (kind Other),
      OErr ETorn   (put only) a strict prefix is stored, the call reports an error,
      OErr EFull   (put only) everything is stored, the call still reports an error;
-                  for the other calls every OErr has no effect.
+     OErr EGarble (get only) the call reports SUCCESS but the bytes it returns are damaged
+                  in transit (a transient read-side corruption, e.g. a flipped bit: the
+                  object at rest is untouched).  Every decoder rejects the damaged image
+                  (C14, relative to the checksums), so the reader sees [Torn];
+                  for the other calls every OErr (EGarble included) has no effect.
    When the stream is exhausted the process is dead: that call and all later ones do
    nothing ([RCrash]).  So a crash instant (between any two calls, or "inside" a put:
    ETorn followed by the end of the stream) is a prefix of the outcome stream, and a
@@ -41,7 +45,7 @@ Inductive sobj (O : Type) := Whole (o : O) | Torn.
 Arguments Whole {O} o.
 Arguments Torn {O}.
 
-Inductive effect := ENone | ETorn | EFull.
+Inductive effect := ENone | ETorn | EFull | EGarble.
 Global Instance effect_eq_dec : EqDecision effect.
 Proof. solve_decision. Defined.
 Inductive outcome := OOk | OErr (e : effect).
@@ -72,6 +76,10 @@ Section store.
   Definition stepw (w : world) (st : gmap name (sobj O)) (io : list outcome) (c : call) (o : outcome) : world :=
     World st io ((c, o) :: w_log w) (w_crashed w).
 
+  (* what a reader gets when the bytes were damaged in transit *)
+  Definition garble (o : option (sobj O)) : option (sobj O) :=
+    match o with Some _ => Some Torn | None => None end.
+
   (* put: create or overwrite *)
   Definition st_put (w : world) (n : name) (o : O) : world * res unit :=
     match w_io w with
@@ -82,6 +90,7 @@ Section store.
         | OErr ENone => (stepw w (w_store w) io (CPut n) oc, RErr)
         | OErr ETorn => (stepw w (<[n := Torn]> (w_store w)) io (CPut n) oc, RErr)
         | OErr EFull => (stepw w (<[n := Whole o]> (w_store w)) io (CPut n) oc, RErr)
+        | OErr EGarble => (stepw w (w_store w) io (CPut n) oc, RErr)
         end
     end.
 
@@ -93,6 +102,7 @@ Section store.
         let w' := stepw w (w_store w) io (CGet n) oc in
         match oc with
         | OOk => (w', ROk (w_store w !! n))
+        | OErr EGarble => (w', ROk (garble (w_store w !! n)))
         | OErr _ => (w', RErr)
         end
     end.
